@@ -1212,7 +1212,9 @@ def all_kind_objects(b, rnd, tier, small=False):
             out.append((o, "Q", s, "u16", kind))
     fixed = [("empty", Seqn.from_values([])),
              ("sparse_long", Seqn.from_runs([([0, 0, 0, 1], 1500), ([0], 700), ([1, 0], 300)])),
-             ("dense_long", Seqn.from_runs([([1, 1, 1, 0], 2500), ([1], 900), ([0, 1, 1], 300)]))]
+             ("dense_long", Seqn.from_runs([([1, 1, 1, 0], 2500), ([1], 900), ([0, 1, 1], 300)])),
+             ("tail_zero_lines", Seqn.from_runs([([1, 0, 1], 100), ([0], 1500)])),
+             ("all_zero_lines", Seqn.from_runs([([0], 1024)]))]
     for name, s in rnd.sample(bit_input_shapes(rnd, "quick"), 5) + fixed:
         for kind, path in (("BV", "bools"), ("BVM", "bools"), ("RSN", "new"), ("RSW", "new"), ("DA0", "new"), ("DA1", "new")):
             o = b.newb(kind, path, s)
@@ -1357,6 +1359,14 @@ def camp_c19(rnd, tier):
                     b.eq(objs[0], d2)
                     d3 = b.newt(kind, ty, "from_vec", Seqn.from_values(vals[:-1]))
                     b.eq(objs[0], d3)
+                    # differences confined to the very end: last element changed, last two different elements swapped
+                    v4 = list(vals)
+                    v4[-1] = v4[-1] + 1 if v4[-1] < tmax(ty) else v4[-1] - 1
+                    b.eq(objs[0], b.newt(kind, ty, "from_vec", Seqn.from_values(v4)))
+                    if len(vals) >= 2 and vals[-1] != vals[-2]:
+                        v5 = list(vals)
+                        v5[-1], v5[-2] = v5[-2], v5[-1]
+                        b.eq(objs[0], b.newt(kind, ty, "from_vec", Seqn.from_values(v5)))
                 # the same numbers in a wider carrier
                 for wt in wider_types(ty)[:2 if tier == "quick" else 5]:
                     w = b.newt(kind, wt, "from_vec", s)
@@ -1379,6 +1389,33 @@ def camp_c19(rnd, tier):
                 v2[j] = (v2[j] + 1) % 4
                 d = b.newq(kind, "u8", "new", Seqn.from_values(v2))
                 b.eq(objs[0], d)
+                v4 = list(vals)
+                v4[-1] = (v4[-1] + 2) % 4
+                b.eq(objs[0], b.newq(kind, "u8", "new", Seqn.from_values(v4)))
+    # plain quad vectors: same length, same symbol counts, different only in the tail of the last line
+    for n in (1, 2, 127, 128, 129, 200, 255, 256, 257, 456, 511, 512, 640):
+        vals = rand_seq(rnd, n, [0, 1, 2, 3])
+        if n >= 2:
+            vals[-1], vals[-2] = 1, 2
+        b.reset()
+        a = b.newq("QV", "u8", "collect", Seqn.from_values(vals))
+        c = b.conv(a, "clone")
+        b.eq(a, c)
+        for kind in ("QV", "RSQ256", "RSQ512"):
+            x = b.newq(kind, "u8", "collect", Seqn.from_values(vals))
+            for edit in ("swap", "last", "first_of_last_half"):
+                v2 = list(vals)
+                if edit == "swap" and n >= 2:
+                    v2[-1], v2[-2] = v2[-2], v2[-1]
+                elif edit == "last":
+                    v2[-1] = (v2[-1] + 1) % 4
+                elif n >= 130:
+                    j = n - 1 - ((n - 1) % 128)
+                    v2[j] = (v2[j] + 1) % 4
+                else:
+                    continue
+                y = b.newq(kind, "u8", "collect", Seqn.from_values(v2))
+                b.eq(x, y)
     # bit structures: From<BitVector> / new; bool- and position-based constructors
     dsh = darray_inputs(rnd, "quick")
     for name, s in rnd.sample(bit_input_shapes(rnd, "quick"), 6 if tier == "quick" else 12) + rnd.sample(dsh, 2 if tier == "quick" else 6):
@@ -1401,6 +1438,9 @@ def camp_c19(rnd, tier):
                 v2[j] ^= 1
                 d = b.newb(kind, ps[0], Seqn.from_values(v2))
                 b.eq(objs[0], d)
+                v4 = list(vals)
+                v4[-1] ^= 1
+                b.eq(objs[0], b.newb(kind, "new" if "new" in paths else "bools", Seqn.from_values(v4)))
             if kind in ("BV", "BVM") and ends_with_one and len(vals) <= 3000:
                 # the same set of positions listed with repetitions and in another order
                 ones_at = [i for i, v in enumerate(vals) if v == 1]
@@ -1650,6 +1690,15 @@ def camp_space(rnd, tier, which):
             if n > 0:
                 # built from positions with a huge final gap, and from an all-zero vector
                 gap = Seqn.from_runs([([1, 0, 1], 3), ([0], max(0, n - 10)), ([1], 1)])
+                # every one is the last bit of a 512-bit line (each extension ends exactly on a line boundary)
+                if n >= 1000:
+                    ends = Seqn.from_runs([([0] * 511 + [1], n // 512)])
+                    for kind, path in (("BVM", "positions"), ("BV", "positions")):
+                        x = b.newb(kind, path, ends)
+                        b.space(x)
+                        if kind == "BV":
+                            for m in ("rs_wide", "rs_narrow"):
+                                b.space(b.conv(x, m, keep=1))
                 for path in ("positions", "with_zeros"):
                     bv = b.newb("BVM", path, gap, n=n)
                     b.space(bv)
@@ -1762,6 +1811,13 @@ def camp_c17(rnd, tier):
             vs += [1 << k, (1 << k) - 1, (1 << k) + 1]
         vs += [rnd.getrandbits(bits) for _ in range(30)]
         for v in sorted(set(v for v in vs if 0 <= v < (1 << bits))):
+            b.util("msb", ty=ty, v=sym(v))
+    # signed carriers (non-negative values)
+    for ty, bits in (("i8", 8), ("i16", 16), ("i32", 32), ("i64", 64), ("isize", 64), ("i128", 128)):
+        vs = [0, 1, 2, 3, 5, (1 << (bits - 1)) - 1, 1 << (bits - 2)]
+        for k in range(1, bits - 1):
+            vs += [1 << k, (1 << k) - 1, (1 << k) + 1]
+        for v in sorted(set(v for v in vs if 0 <= v < (1 << (bits - 1)))):
             b.util("msb", ty=ty, v=sym(v))
     # stable partitions: all sequences <= L over 3-bit values embedded at every shift of every type
     L = 4 if tier == "quick" else 5
